@@ -256,7 +256,8 @@ def cases(tier):
 
 
 HEADERS = ['[nophase]', '[setup', 'setup]', '[ setup ]', '[SETUP]', '[setup] x', '[[setup]]', '[]', '[act][assert]']
-RAW = ['[assert]\n`desc`\n# comment', '[assert]\n`desc`\n\n# c\n\n#', '[assert]\n`desc`\n  ', '[assert]\n`desc`', '[assert]\n`desc', '[setup]\n`d`\n#x\n[act]\n% atc', '[assert]\n`desc`\n#\n',
+RAW = ['[act]\n% atc\n' + '\x0c\n' * 3000, '[act]\n% atc a\n' + ' \t \n' * 5000, '[setup]\n' + '\n' * 20000 + 'run % p\n[act]\n% atc\n',
+       '[assert]\n`desc`\n# comment', '[assert]\n`desc`\n\n# c\n\n#', '[assert]\n`desc`\n  ', '[assert]\n`desc`', '[assert]\n`desc', '[setup]\n`d`\n#x\n[act]\n% atc', '[assert]\n`desc`\n#\n',
        '[assert]\n`a\nmulti-line\ndescription`\n# only a comment follows',
        '[assert]\n\xa0', '[assert]\n\x0c', '[setup]\ndef string A = 1\n\x0b', '[act]\n% atc\n[cleanup]\n \x1c', '[act]\nprog \xa0', '[act]\n\xa0\n', '[setup]\n\u2028', '[setup]\n\x85\n[act]\n',
        '', '\n\n\n', '\x00\x01\x02', '﻿[act]\n% atc\n', '[act]\n' + 'x' * 100000, '\r\n[act]\r\n% atc\r\n', '[act]\n% atc\n[assert]\nexit-code == 0' + '\n' * 5000,
